@@ -4,19 +4,26 @@ C19 (elasticquota part), helper lemmas 5: OnPodUpdate keeps the live invariant.
 -/
 namespace KoordVerif.C19.Quota
 
+theorem view_refreshE (s : St) (q : Nat) (p : PodObj) :
+    view (refreshE s q p) = (view s).map (fun v => if v.1 == q && v.2.1 == p.id then (v.1, v.2.1, p) else v) := by
+  simp only [view, refreshE, List.map_map]
+  congr 1; funext e; simp only [Function.comp]; split <;> rfl
+
 theorem reqD_usedD_comm (s : St) (q q' : Nat) (d d' : Int) :
     reqD (usedD s q d) q' d' = usedD (reqD s q' d') q d := by
   unfold reqD usedD; split <;> split <;> rfl
 
 /-- old and new resolve to different quotas: OnPodUpdate is OnPodDelete followed by OnPodAdd -/
 theorem mgrPodUpdate_diff_eq (s : St) (nq oq : Nat) (n o : PodObj) (hne : oq ≠ nq)
-    (hk : s.known.contains oq = true) (hh : hasE s oq o.id = true) :
+    (hk : s.known.contains oq = true) (hh : hasE s oq o.id = true)
+    {c : PodObj} (hc : cachedObj s oq o.id = some c) (hcid : c.id = o.id) (hcr : c.req = o.req) :
     mgrPodUpdate s nq oq n o = mgrPodAdd (mgrPodDelete s oq o) nq n := by
   have hk' : oq ∈ s.known := by simpa using hk
   have e1 : mgrPodDelete s oq o =
       delE (reqD (if isAssigned s oq o.id then usedD s oq (-o.req) else s) oq (-o.req)) oq o.id := by
     unfold mgrPodDelete
-    simp only [hk, hh, Bool.not_true, Bool.or_false, Bool.false_eq_true, if_false, isAssigned_reqD]
+    simp only [hk, hh, Bool.not_true, Bool.or_false, Bool.false_eq_true, if_false, isAssigned_reqD, hc,
+      Option.getD_some, hcid, hcr]
     split
     · rw [reqD_usedD_comm]
     · rfl
@@ -31,7 +38,8 @@ theorem mgrPodUpdate_same_eff (s : St) (q : Nat) (n o : PodObj) (hid : n.id = o.
     (hr : 0 ≤ getC s.req q + (n.req - o.req))
     (hu1 : isAssigned s q o.id = true → 0 ≤ getC s.used q + (n.req - o.req))
     (hu2 : 0 ≤ getC s.used q + n.req) :
-    view (mgrPodUpdate s q q n o) = view s ∧
+    view (mgrPodUpdate s q q n o) =
+      (view s).map (fun v => if v.1 == q && v.2.1 == n.id then (v.1, v.2.1, n) else v) ∧
     (∀ q' pid, hasE (mgrPodUpdate s q q n o) q' pid = hasE s q' pid) ∧
     (∀ q' pid, isAssigned (mgrPodUpdate s q q n o) q' pid =
       if q' = q ∧ pid = o.id then (isAssigned s q o.id || bound n) else isAssigned s q' pid) ∧
@@ -43,53 +51,37 @@ theorem mgrPodUpdate_same_eff (s : St) (q : Nat) (n o : PodObj) (hid : n.id = o.
   have hk' : q ∈ s.known := by simpa using hk
   cases ha : isAssigned s q o.id
   · cases hb : bound n
-    · have e : mgrPodUpdate s q q n o = reqD s q (n.req - o.req) := by
+    · have e : mgrPodUpdate s q q n o = refreshE (reqD s q (n.req - o.req)) q n := by
         unfold mgrPodUpdate; simp [hk', hid, hh, ha, hb]
       rw [e]
-      refine ⟨by simp, fun q' pid => by simp, fun q' pid => ?_, fun q' => reqD_req _ _ _ _ hr,
-        fun q' => by simp, by simp, by simp⟩
-      rw [isAssigned_reqD]
+      refine ⟨by simp [view_refreshE], fun q' pid => by simp [hasE_refreshE], fun q' pid => ?_,
+        fun q' => by rw [refreshE_req]; exact reqD_req _ _ _ _ hr, fun q' => by simp, by simp, by simp⟩
+      rw [isAssigned_refreshE, isAssigned_reqD]
       split
       · rename_i hc; rw [hc.1, hc.2, ha]; rfl
       · rfl
     · have e : mgrPodUpdate s q q n o =
-          usedD (setAsg (reqD s q (n.req - o.req)) q o.id true) q n.req := by
+          refreshE (usedD (setAsg (reqD s q (n.req - o.req)) q o.id true) q n.req) q n := by
         unfold mgrPodUpdate; simp [hk', hid, hh, ha, hb]
       rw [e]
-      refine ⟨by simp, fun q' pid => by simp [hasE_setAsg], fun q' pid => ?_, fun q' => ?_, fun q' => ?_,
-        by simp, by simp⟩
-      · simp only [isAssigned_usedD, isAssigned_setAsg, isAssigned_reqD, hasE_reqD, hh]
+      refine ⟨by simp [view_refreshE], fun q' pid => by simp [hasE_refreshE, hasE_setAsg], fun q' pid => ?_,
+        fun q' => ?_, fun q' => ?_, by simp, by simp⟩
+      · simp only [isAssigned_refreshE, isAssigned_usedD, isAssigned_setAsg, isAssigned_reqD, hasE_reqD, hh]
         split <;> simp
-      · simp only [usedD_req, setAsg_req]; exact reqD_req _ _ _ _ hr
-      · rw [usedD_used _ _ _ _ (by simpa using hu2)]; simp
+      · simp only [refreshE_req, usedD_req, setAsg_req]; exact reqD_req _ _ _ _ hr
+      · rw [refreshE_used, usedD_used _ _ _ _ (by simpa using hu2)]; simp
   · have hu1 := hu1 ha
-    have e : mgrPodUpdate s q q n o = usedD (reqD s q (n.req - o.req)) q (n.req - o.req) := by
+    have e : mgrPodUpdate s q q n o = refreshE (usedD (reqD s q (n.req - o.req)) q (n.req - o.req)) q n := by
       unfold mgrPodUpdate; simp [hk', hid, hh, ha]
     rw [e]
-    refine ⟨by simp, fun q' pid => by simp, fun q' pid => ?_, fun q' => ?_, fun q' => ?_, by simp, by simp⟩
-    · rw [isAssigned_usedD, isAssigned_reqD]
+    refine ⟨by simp [view_refreshE], fun q' pid => by simp [hasE_refreshE], fun q' pid => ?_, fun q' => ?_,
+      fun q' => ?_, by simp, by simp⟩
+    · rw [isAssigned_refreshE, isAssigned_usedD, isAssigned_reqD]
       split
       · rename_i hc; rw [hc.1, hc.2, ha]; rfl
       · rfl
-    · simp only [usedD_req]; exact reqD_req _ _ _ _ hr
-    · rw [usedD_used _ _ _ _ (by simpa using hu1)]; simp
-
-theorem hasE_mgrPodDelete_le (s : St) (q : Nat) (p : PodObj) (q' pid : Nat)
-    (h : hasE (mgrPodDelete s q p) q' pid = true) : hasE s q' pid = true := by
-  unfold mgrPodDelete at h
-  split at h
-  · exact h
-  · simp only [] at h
-    split at h <;> (rw [hasE_delE] at h; simp at h; exact h.1)
-
-theorem mgrPodDelete_known (s : St) (q : Nat) (p : PodObj) : (mgrPodDelete s q p).known = s.known := by
-  unfold mgrPodDelete; split
-  · rfl
-  · simp only []; split <;> simp
-theorem mgrPodDelete_store (s : St) (q : Nat) (p : PodObj) : (mgrPodDelete s q p).store = s.store := by
-  unfold mgrPodDelete; split
-  · rfl
-  · simp only []; split <;> simp
+    · simp only [refreshE_req, usedD_req]; exact reqD_req _ _ _ _ hr
+    · rw [refreshE_used, usedD_used _ _ _ _ (by simpa using hu1)]; simp
 
 theorem onPodDelete_eq {s : St} {w : World} (h : LiveInv s w) {p : PodObj}
     (hh : hasE s (resolve s p) p.id = true) : onPodDelete s p = mgrPodDelete s (resolve s p) p := by
@@ -120,7 +112,7 @@ theorem step_pupd_ok (o n : PodObj) : LiveStepOK (.pupd o n) := by
     rw [e1, e2]; exact h
   simp only [hrv, if_false, Bool.and_eq_true, Bool.or_eq_true, beq_iff_eq, atHome, Bool.not_eq_eq_eq_not,
     Bool.not_true, Bool.and_eq_false_imp] at hrest
-  obtain ⟨⟨⟨⟨⟨hh, hnode⟩, hterm⟩, hta⟩, hres⟩, hdf⟩ := hrest
+  obtain ⟨⟨⟨⟨hh, hnode⟩, hterm⟩, hta⟩, hres⟩ := hrest
   obtain ⟨hp, _⟩ := find_some hf
   have hk := resolve_known s o h.k1
   have hE : ∀ q, hasE s q o.id = (q == resolve s o) := by
@@ -176,29 +168,36 @@ theorem step_pupd_ok (o n : PodObj) : LiveStepOK (.pupd o n) := by
     clear hr hu1 hu2 e1 e2
     generalize hq : resolve s o = q at *
     generalize mgrPodUpdate s q q n o = s' at *
-    refine ⟨KInv_same h.kinv ek es, by rw [es]; exact h.su, ?_, ?_, by rw [ev]; exact h.vnd, ?_, ?_, ?_, ?_, ?_, ?_⟩
+    have hpid : ((fun v : Nat × Nat × PodObj => v.2.1) ∘
+        (fun v : Nat × Nat × PodObj => if v.1 == q && v.2.1 == n.id then (v.1, v.2.1, n) else v)) =
+        (fun v => v.2.1) := by
+      funext v; simp only [Function.comp]; split <;> rfl
+    refine ⟨KInv_same h.kinv ek es, by rw [es]; exact h.su, ?_, ?_,
+      by rw [ev, List.map_map, hpid]; exact h.vnd, ?_, ?_, ?_, ?_, ?_, ?_⟩
     · exact List.pairwise_cons.2 ⟨fun x hx => by rw [hid]; exact fun hc => ((hmem x).1 hx).2 hc.symm,
         Pairwise_filter_ids h.nd _⟩
     · intro x hx
       rcases List.mem_cons.1 hx with rfl | hx
       · exact hn0
       · exact h.nn x ((hmem x).1 hx).1
-    · intro v hv
-      rw [ev] at hv
-      obtain ⟨o', ho', a1, a2, a3, a4⟩ := h.vobj v hv
-      by_cases hi : o'.id = o.id
-      · have : o' = o := h.nd.eq_of_id ho' hp hi
-        subst this
-        refine ⟨n, List.mem_cons_self, hid.trans a1, a2, by rw [hrs, ← hqq]; rw [hq] at a3; exact a3, fun hd => ?_⟩
-        have h1 : hasE s v.1 o'.id = true := (hasE_iff_view _ _ _).2 ⟨v.2.2, by rw [a1]; exact hv⟩
-        rw [hE, beq_iff_eq] at h1
-        have hqd : q = dflt := by rw [← h1, hd]
-        have hnd' : resolve s n = dflt := by rw [← hqq, hqd]
-        rcases hdf with hdf | hdf
-        · have := hdf hqd; rw [hnd'] at this; simp at this
-        · obtain ⟨b1, b2, b3⟩ := a4 hd
-          exact ⟨b1.trans hdf.1.1.symm, b2.trans hdf.1.2.symm, b3.trans hdf.2.symm⟩
-      · exact ⟨o', List.mem_cons_of_mem _ ((hmem o').2 ⟨ho', hi⟩), a1, a2, by rw [hrs]; exact a3, a4⟩
+    · intro v' hv'
+      rw [ev] at hv'
+      obtain ⟨v, hv, rfl⟩ := List.mem_map.1 hv'
+      by_cases hc : (v.1 == q && v.2.1 == n.id) = true
+      · simp only [hc, if_true]
+        simp only [Bool.and_eq_true, beq_iff_eq] at hc
+        exact ⟨n, List.mem_cons_self, hc.2.symm, hc.2.symm, Or.inl (by rw [hrs, ← hqq]; exact hc.1),
+          ⟨rfl, rfl, rfl⟩⟩
+      · simp only [hc, if_false, Bool.false_eq_true]
+        obtain ⟨o', ho', a1, a2, a3, a4⟩ := h.vobj v hv
+        have hi : o'.id ≠ o.id := by
+          intro hi
+          have h1 : hasE s v.1 o.id = true := (hasE_iff_view _ _ _).2 ⟨v.2.2, by rw [← hi, a1]; exact hv⟩
+          rw [hE, beq_iff_eq] at h1
+          apply hc
+          simp only [Bool.and_eq_true, beq_iff_eq]
+          exact ⟨h1, by rw [← a1, hi, hid]⟩
+        exact ⟨o', List.mem_cons_of_mem _ ((hmem o').2 ⟨ho', hi⟩), a1, a2, by rw [hrs]; exact a3, a4⟩
     · intro x hx
       rcases List.mem_cons.1 hx with rfl | hx
       · exact ⟨q, by rw [eh, hid]; exact hh⟩
@@ -256,7 +255,7 @@ theorem step_pupd_ok (o n : PodObj) : LiveStepOK (.pupd o n) := by
     have hcf : w.resvd.contains o.id = false := by
       rcases hres with hc | hc
       · exact hc
-      · exact absurd hc.1.symm hqq
+      · exact absurd hc.symm hqq
     have hfil : w.resvd.filter (· != o.id) = w.resvd := by
       apply List.filter_eq_self.2
       intro x hx
@@ -269,7 +268,8 @@ theorem step_pupd_ok (o n : PodObj) : LiveStepOK (.pupd o n) := by
       split
       · rfl
       · exact hfil.symm
-    rw [hw, mgrPodUpdate_diff_eq s _ _ n o hqq hk hh]
+    obtain ⟨c, hc, hcid, hcag⟩ := h.cached hp hh
+    rw [hw, mgrPodUpdate_diff_eq s _ _ n o hqq hk hh hc hcid hcag.2.2]
     have h1 : LiveInv (onPodDelete s o) (w.apply (.pdel o)) :=
       step_pdel_ok o s w h (by simp [okStep, hf])
     rw [onPodDelete_eq h hh] at h1
